@@ -265,6 +265,17 @@ def scan_family():
             wf(new, "scan.edit_update")
             if not close(w, new.get_score() - tr.get_score()):
                 fail("scan.edit_update: weight != score change", w=w)
+            new, w, rd, bwd = sc.edit(KEY, tr, Update(C.empty()), (Diff(2.5, UnknownChange), Diff(xs, NoChange)))
+            wf(new, "scan.edit_update[empty constraint, only the initial carry changed]")
+            ref_s, _ = sc.assess(tr.get_choices(), (2.5, xs))
+            if not (close(new.get_args()[0], 2.5) and close(new.get_score(), ref_s)):
+                fail("scan.edit_update[empty constraint, only the initial carry changed]: the new trace is not the loop "
+                     "re-run on the new initial carry", args=new.get_args()[0], score=new.get_score(), want=ref_s)
+            for i in range(n):          # the carry changes at slice i, slice i+1 is re-scored under the new carry
+                new, w, rd, bwd = IndexRequest(jnp.array(i), Update(C.kw(z=0.3))).edit(KEY, tr, Diff.no_change((0.5, xs)))
+                wf(new, f"scan.edit_index[idx={i} of {n}; the next slice's score depends on the carry]")
+                if not close(w, new.get_score() - tr.get_score()):
+                    fail("scan.edit_index: weight != score change", idx=i, w=w)
     # index edits (first, middle, last) on a kernel whose carry does not depend on the edited choice
     @gen
     def kadd(c, x):
